@@ -33,6 +33,8 @@ for f in sorted(os.listdir(H)):
                 fid = 'F55'
         elif 'duration value' in det and '-' in det:
             fid = 'F54'
+        elif 'whose definite TIMEX is a bare date' in det:
+            fid = 'F63'
         elif 'definite TIMEX with a month or day' in det and cult == 'de-de':
             fid = 'F56'
         if fid is None:
